@@ -54,6 +54,15 @@ extern "C" void harness(void)
   if (VF_K == 2) VCLAIM(5, !e1->sequences->can_be_called(), "C05.predecessor_in_second_sequence_cannot_match_after_destruction");
   // the successor is next in line now
   VCLAIM(5, e2->sequences->can_be_called(), "C05.successor_eligible_after_destruction");
+  // C06: the destruction counts in the sequence too, in order or not: with the successor made optional nothing pending is unsatisfied
+  {
+    size_t l2 = e2->sequences->get_min_calls(), h2 = e2->sequences->max_calls, c2 = e2->sequences->get_calls();
+    vf_poke(*e2->sequences, 0, h2, c2);
+    VCLAIM(6, s1.is_completed(), "C06.sequence_completed_once_the_destruction_happened_and_the_rest_is_satisfied");
+    if (VF_K == 2) VCLAIM(6, s2.is_completed(), "C06.second_sequence_completed_once_the_destruction_happened");
+    vf_poke(*e2->sequences, l2, h2, c2);
+    VCLAIM(6, !s1.is_completed(), "C06.pending_required_successor_keeps_the_sequence_incomplete");
+  }
   unsigned before = vf_nreports;
   d.reset();
   VCLAIM(13, vf_nreports == before, "C13.released_after_death_silent");
